@@ -217,9 +217,22 @@ func (core *JApiCore) addBaseUrl(d *directive.Directive) *jerr.JApiError {
 }
 
 func (core *JApiCore) addType(d *directive.Directive) *jerr.JApiError {
-	if d.NamedParameter("Name") == "" {
+	name := d.NamedParameter("Name")
+	if name == "" {
 		return d.KeywordError(fmt.Sprintf("%s (%s)", jerr.RequiredParameterNotSpecified, "Name"))
 	}
+
+	// The schema kept for a name is the one of the last TYPE directive with that name. If that
+	// directive uses another notation the name is declared twice, and its schema cannot stand
+	// for this directive.
+	if last := core.rawUserTypes.GetValue(name); last != nil {
+		n1, _ := notation.NewSchemaNotation(d.NamedParameter("SchemaNotation"))
+		n2, _ := notation.NewSchemaNotation(last.NamedParameter("SchemaNotation"))
+		if n1 != n2 {
+			return last.KeywordError(fmt.Sprintf(jerr.DuplicateNames, name))
+		}
+	}
+
 	return core.catalog.AddType(*d, core.userTypes)
 }
 
